@@ -4,6 +4,7 @@ import (
 	"bytes"
 	"encoding/gob"
 	"fmt"
+	"strings"
 
 	"github.com/valyala/fastjson"
 )
@@ -163,4 +164,59 @@ func (l Link) Format(s fmt.State, verb rune) {
 	case 's', 'v':
 		_, _ = fmt.Fprintf(s, "%T[%s] {  }", l, l.Type)
 	}
+}
+
+// Equals verifies if our receiver Link is equals with the "with" Link
+func (l Link) Equals(with Item) bool {
+	if IsNil(with) || !IsLink(with) || IsIRI(with) {
+		return false
+	}
+	result := true
+	err := OnLink(with, func(w *Link) error {
+		if !l.ID.Equals(w.ID, true) {
+			result = false
+			return nil
+		}
+		if !strings.EqualFold(string(l.Type), string(w.Type)) {
+			result = false
+			return nil
+		}
+		if len(w.Name) > 0 && !w.Name.Equals(l.Name) {
+			result = false
+			return nil
+		}
+		if len(w.Rel) > 0 && !w.Rel.Equals(l.Rel, false) {
+			result = false
+			return nil
+		}
+		if len(w.MediaType) > 0 && w.MediaType != l.MediaType {
+			result = false
+			return nil
+		}
+		if w.Height > 0 && w.Height != l.Height {
+			result = false
+			return nil
+		}
+		if w.Width > 0 && w.Width != l.Width {
+			result = false
+			return nil
+		}
+		if w.Preview != nil && !ItemsEqual(l.Preview, w.Preview) {
+			result = false
+			return nil
+		}
+		if len(w.Href) > 0 && !w.Href.Equals(l.Href, false) {
+			result = false
+			return nil
+		}
+		if len(w.HrefLang) > 0 && w.HrefLang != l.HrefLang {
+			result = false
+			return nil
+		}
+		return nil
+	})
+	if err != nil {
+		result = false
+	}
+	return result
 }
